@@ -112,3 +112,49 @@ Proof.
   specialize (H (t, s) H1). rewrite forallb_forall in H. specialize (H (t, s') H2). cbn [fst snd] in H.
   rewrite String.eqb_refl in H. cbn [implb] in H. apply String.eqb_eq in H. exact H.
 Qed.
+
+(* ---------- implicit mapping ---------- *)
+Lemma synth_acc_spec members consts : forall seen acc m,
+  synth_acc members consts seen acc = Some m ->
+  (forall t s, In (t, s) acc -> In t seen) ->
+  (forall t s, In (t, s) m -> In (t, s) acc \/ (In s members /\ consts s = Some (Some t)))
+  /\ (forall s, In s members -> exists t, In (t, s) m)
+  /\ (forall t s, In (t, s) acc -> In (t, s) m)
+  /\ (functional acc -> functional m).
+Proof.
+  induction members as [|x r IH]; intros seen acc m H Hseen; cbn [synth_acc] in H.
+  - injection H as <-. repeat split; auto. intros s [].
+  - destruct (consts x) as [[v|]|] eqn:Cx; try discriminate.
+    destruct (Str.mem v seen) eqn:Mv; [discriminate|].
+    assert (Hseen' : forall t s, In (t, s) (acc ++ [(v, x)]) -> In t (v :: seen)).
+    { intros t s Hin. apply in_app_or in Hin. destruct Hin as [Hin|[E|[]]]; [right; eapply Hseen; eauto | injection E as <- <-; left; reflexivity]. }
+    destruct (IH (v :: seen) (acc ++ [(v, x)]) m H Hseen') as [A [B [C D]]].
+    repeat split.
+    + intros t s Hin. destruct (A t s Hin) as [Hacc|[Hr Hc]].
+      * apply in_app_or in Hacc. destruct Hacc as [Hacc|[E|[]]]; [left; exact Hacc|].
+        injection E as <- <-. right. split; [left; reflexivity | exact Cx].
+      * right. split; [right; exact Hr | exact Hc].
+    + intros s [<-|Hs].
+      * exists v. apply C. apply in_or_app. right. left. reflexivity.
+      * apply B. exact Hs.
+    + intros t s Hin. apply C. apply in_or_app. left. exact Hin.
+    + intros F. apply D. intros t s s' H1 H2. apply in_app_or in H1, H2.
+      destruct H1 as [H1|[E1|[]]], H2 as [H2|[E2|[]]].
+      * eapply F; eauto.
+      * injection E2 as <- <-. exfalso. apply Hseen in H1. apply mem_In in H1. congruence.
+      * injection E1 as <- <-. exfalso. apply Hseen in H2. apply mem_In in H2. congruence.
+      * congruence.
+Qed.
+
+Theorem synth_spec members consts m : synth members consts = Some m ->
+  functional m /\ (forall s, In s members -> exists t, In (t, s) m)
+  /\ (forall t s, In (t, s) m -> In s members /\ consts s = Some (Some t)).
+Proof.
+  unfold synth. destruct members as [|x r] eqn:E; [discriminate|]. rewrite <- E. intros H.
+  destruct (synth_acc_spec members consts [] [] m H) as [A [B [_ D]]]; [intros t s []|].
+  repeat split.
+  - apply D. intros t s s' [].
+  - exact B.
+  - destruct (A t s H0) as [[]|[H1 H2]]; exact H1.
+  - destruct (A t s H0) as [[]|[H1 H2]]; exact H2.
+Qed.
